@@ -372,7 +372,7 @@ func TestC07_BufferEdgeExh(t *testing.T) {
 	}, n)
 	specC07Edge.Enumerate(t, true, func(_ *Recorder, yield func(DocCase) bool) {
 		// a one-field document whose only line (no final newline) is 4096*k-1, 4096*k, 4096*k+1 bytes long
-		for _, total := range []int{4095, 4096, 4097, 8191, 8192, 8193, 12288} {
+		for _, total := range []int{4095, 4096, 4097, 8191, 8192, 8193, 12288, 65535, 65536, 65537, 131072, 200001} {
 			for _, nl := range []string{"", "\n", "\r\n"} {
 				val := strings.Repeat("y", total-len("Only: "))
 				c := DocCase{Text: "Only: " + val + nl, Want: []ParaWant{{Order: []string{"Only"}, Values: map[string]string{"Only": val}}}, Feats: []string{"buffer-edge", "single-line-document"}}
